@@ -208,6 +208,11 @@ func TestVerif_gossipreal(t *testing.T) {
 			why = vfRealFixpoint(nodes)
 		}
 		reached := why == ""
+		if reached {
+			// the announcements that belong to the convergence itself are published at about the moment the views agree and
+			// reach the recording actors a little later: give them a second before the quiet window starts
+			time.Sleep(time.Second)
+		}
 		before := vfRealCount(nodes)
 		var late string
 		if reached {
@@ -527,6 +532,9 @@ func vfRunCrashScenario(R *verifrt.Report) {
 			why, _ = vfCrashFixpoint(nodes, child)
 		}
 		reached := why == ""
+		if reached {
+			time.Sleep(time.Second) // see the first scenario: announcements of the convergence itself are still in flight
+		}
 		before := vfRealCount(nodes)
 		var late, leader string
 		if reached {
